@@ -1,4 +1,10 @@
 import HexVerif.X.Syntax
+/-
+  INSTRUMENTED COPY of X/Sem.lean (namespace `Hex.XT`): the same interpreter with grouping marks
+  threaded through the call log (`St.ctrace`, `Behaviour.callTree`), used only by the C15(d)
+  call-sequence check.  `X/Sem.lean` itself is left untouched because the C01 proofs are about it;
+  the driver runs both and reports `tracecheck=DIFF` if their common observations ever differ.
+-/
 import HexVerif.Isa.Spec
 /-!
   Reference semantics of X (docs/PDFs/xhexnotes.pdf pp. 1-8), as a fuelled, total, deterministic
@@ -38,7 +44,8 @@ import HexVerif.Isa.Spec
     and procedures as statements, with as many actuals of the right kind as formals; system calls
     0..2 with 1/2/1 integer actuals), also in code that is never executed.
 -/
-namespace Hex.X
+namespace Hex.XT
+open Hex.X
 open Hex.Isa (IOSt Ev)
 
 /-- Stack budget of the C01 quantifier: nesting depth of active procedure instances. -/
@@ -85,6 +92,7 @@ structure St where
   locals : List (String × LBind)
   io : IOSt
   calls : List String               -- call log, newest first
+  ctrace : List String := []        -- call log with grouping marks "(" "|" ")", newest first
   steps : Nat
   depth : Nat
 
@@ -204,9 +212,9 @@ def impSL (imp : String → Bool) (isLocalVar : String → Bool) : List Stmt →
   | s :: ss => impS imp isLocalVar s || impSL imp isLocalVar ss
 end
 
-def Proc.localNames (p : Proc) : List String := p.formals.map Formal.name ++ p.locals.map Decl.name
+def procLocalNames (p : Proc) : List String := p.formals.map Formal.name ++ p.locals.map Decl.name
 
-def Proc.isLocalVar (p : Proc) (n : String) : Bool :=
+def procIsLocalVar (p : Proc) (n : String) : Bool :=
   p.locals.any fun d => match d with | .var m => m == n | _ => false
 
 /-- One round of the impurity fixpoint: a callee is impure under `cur` if its body may have an
@@ -214,8 +222,8 @@ def Proc.isLocalVar (p : Proc) (n : String) : Bool :=
 def impureStep (P : Program) (cur : List String) : List String :=
   let procNames := P.procs.map (·.name)
   (P.procs.filter fun p =>
-    let imp := fun f => cur.contains f || !procNames.contains f || p.localNames.contains f
-    impS imp p.isLocalVar p.body).map (·.name)
+    let imp := fun f => cur.contains f || !procNames.contains f || (procLocalNames p).contains f
+    impS imp (procIsLocalVar p) p.body).map (·.name)
 
 def impureFix (P : Program) : Nat → List String → List String
   | 0, cur => cur
@@ -553,6 +561,12 @@ def checkProcs (genv : List (String × GBind)) : List Proc → Except String Uni
     | .error w => throw s!"in {p.name}: {w}"
     | .ok () => checkProcs genv ps
 
+/-- Grouping mark in the structured call log: the calls made while evaluating the operands of one
+    diadic operator (other than `and`/`or`), one actual list, or the subscript and value of one
+    `a[i] := e` lie between "(" and ")" with "|" after/between the positions - X leaves the order of
+    those positions open; everything else in the log is ordered. -/
+def mark (m : String) (st : St) : St := { st with ctrace := m :: st.ctrace }
+
 /-! ### The interpreter -/
 
 mutual
@@ -587,14 +601,15 @@ def eval : Nat → Ctx → Expr → St → Res Val
     | .bin op l r =>
       if !orderOk ctx st [l, r] then .undef "evaluation order of operands matters (impure call)"
       else
-        (asInt "operand" (eval fuel ctx l st)).bind fun a s =>
-          (asInt "operand" (eval fuel ctx r s)).bind fun b s' =>
-            liftE ((arith op a b).map Val.int) s'
+        (asInt "operand" (eval fuel ctx l (mark "(" st))).bind fun a s =>
+          (asInt "operand" (eval fuel ctx r (mark "|" s))).bind fun b s' =>
+            liftE ((arith op a b).map Val.int) (mark ")" s')
     | .syscall id args =>
       if id != 2 then .undef "value of system call 0/1 (or invalid system call) used as an operand"
       else if !orderOk ctx st args then .undef "evaluation order of actuals matters (impure call)"
       else
-        (evalArgs fuel ctx args st).bind fun vs s =>
+        (evalArgs fuel ctx args (mark "(" st)).bind fun vs s0 =>
+          let s := mark ")" s0
           (doSyscall 2 vs s).bind fun r s' =>
             match r with
             | some w => .ok (.int w) s'
@@ -607,7 +622,8 @@ def eval : Nat → Ctx → Expr → St → Res Val
         | .sys id =>
           if id != 2 then .undef "value of system call 0/1 (or invalid system call) used as an operand"
           else
-            (evalArgs fuel ctx args st).bind fun vs s =>
+            (evalArgs fuel ctx args (mark "(" st)).bind fun vs s0 =>
+              let s := mark ")" s0
               (doSyscall 2 vs s).bind fun r s' =>
                 match r with
                 | some w => .ok (.int w) s'
@@ -615,7 +631,8 @@ def eval : Nat → Ctx → Expr → St → Res Val
         | .user p =>
           if !p.isFunc then .undef s!"value of procedure {f} used as an operand"
           else
-            (evalArgs fuel ctx args st).bind fun vs s =>
+            (evalArgs fuel ctx args (mark "(" st)).bind fun vs s0 =>
+              let s := mark ")" s0
               (callUser fuel ctx p vs s).bind fun r s' =>
                 match r with
                 | some w => .ok (.int w) s'
@@ -627,7 +644,7 @@ def evalArgs : Nat → Ctx → List Expr → St → Res (List Val)
   | _ + 1, _, [], st => .ok [] st
   | fuel + 1, ctx, e :: es, st =>
     (eval fuel ctx e st).bind fun v s =>
-      (evalArgs fuel ctx es s).bind fun vs s' => .ok (v :: vs) s'
+      (evalArgs fuel ctx es (mark "|" s)).bind fun vs s' => .ok (v :: vs) s'
 
 /-- One instance of a user procedure (`none`) or function (`some value`). -/
 def callUser : Nat → Ctx → Proc → List Val → St → Res (Option Word)
@@ -644,7 +661,7 @@ def callUser : Nat → Ctx → Proc → List Val → St → Res (Option Word)
         | .ok lb =>
           let saved := st.locals
           let d := st.depth
-          let st1 := { st with locals := fb ++ lb, depth := d + 1, calls := p.name :: st.calls }
+          let st1 := { st with locals := fb ++ lb, depth := d + 1, calls := p.name :: st.calls, ctrace := p.name :: st.ctrace }
           (exec fuel ctx p.body st1).bind fun fl s =>
             let s' := { s with locals := saved, depth := d }
             match fl, p.isFunc with
@@ -686,15 +703,16 @@ def exec : Nat → Ctx → Stmt → St → Res Flow
     | .assignSub n i e =>
       if !orderOk ctx st [i, e] then .undef "evaluation order of subscript and value matters (impure call)"
       else
-        (asInt "subscript" (eval fuel ctx i st)).bind fun iv s =>
-          (asInt "assigned value" (eval fuel ctx e s)).bind fun w s' =>
+        (asInt "subscript" (eval fuel ctx i (mark "(" st))).bind fun iv s =>
+          (asInt "assigned value" (eval fuel ctx e (mark "|" s))).bind fun w s' =>
             match (do let r ← arrayOf ctx s' n; arrSet s' r iv w) with
-            | .ok s'' => .ok .normal s''
+            | .ok s'' => .ok .normal (mark ")" s'')
             | .error why => .undef why
     | .syscall id args =>
       if !orderOk ctx st args then .undef "evaluation order of actuals matters (impure call)"
       else
-        (evalArgs fuel ctx args st).bind fun vs s =>
+        (evalArgs fuel ctx args (mark "(" st)).bind fun vs s0 =>
+          let s := mark ")" s0
           (doSyscall (BitVec.ofNat 32 id) vs s).bind fun _ s' => .ok .normal s'
     | .call f args =>
       if !orderOk ctx st args then .undef "evaluation order of actuals matters (impure call)"
@@ -702,12 +720,14 @@ def exec : Nat → Ctx → Stmt → St → Res Flow
         match resolveCallee ctx st f with
         | .bad why => .undef why
         | .sys id =>
-          (evalArgs fuel ctx args st).bind fun vs s =>
+          (evalArgs fuel ctx args (mark "(" st)).bind fun vs s0 =>
+            let s := mark ")" s0
             (doSyscall id vs s).bind fun _ s' => .ok .normal s'
         | .user p =>
           if p.isFunc then .undef s!"function {f} used as a statement"
           else
-            (evalArgs fuel ctx args st).bind fun vs s =>
+            (evalArgs fuel ctx args (mark "(" st)).bind fun vs s0 =>
+              let s := mark ")" s0
               (callUser fuel ctx p vs s).bind fun _ s' => .ok .normal s'
 
 /-- `{ s1; ...; sn }`. A `return` must be the last process executed. -/
@@ -751,7 +771,7 @@ def bindGlobals : List Decl → List (String × GBind) → List (String × Optio
 def checkProgram (P : Program) : Except String Unit := do
   if hasDup (P.globals.map Decl.name ++ P.procs.map (·.name)) then throw "a global name is declared twice"
   for p in P.procs do
-    if hasDup p.localNames then throw s!"a name is declared twice in {p.name}"
+    if hasDup (procLocalNames p) then throw s!"a name is declared twice in {p.name}"
     for f in p.formals do
       match f with
       | .proc n => throw s!"proc formal {n} is not supported"
@@ -774,6 +794,7 @@ structure Behaviour where
   exit : Word
   calls : List String       -- procedures and functions entered, oldest first
   returned : Bool           -- true: `main` returned; false: terminated by `0(v)` or `stop`
+  callTree : List String    -- the same call log with grouping marks (see `mark`), oldest first
   deriving DecidableEq, Repr
 
 inductive Result where
@@ -783,7 +804,7 @@ inductive Result where
 
 def mkBehaviour (inp : Input) (code : Word) (s : St) (returned : Bool) : Behaviour :=
   { events := s.io.log.reverse, stdinConsumed := inp.stdin.length - s.io.stdin.length,
-    exit := code, calls := s.calls.reverse, returned }
+    exit := code, calls := s.calls.reverse, returned, callTree := s.ctrace.reverse }
 
 /-- The reference semantics: behaviour of program `P` on input `inp`, or `undefined`. -/
 def run (P : Program) (inp : Input) (fuel : Nat) : Result :=
@@ -808,4 +829,4 @@ def run (P : Program) (inp : Input) (fuel : Nat) : Result :=
         | .exit code s => .defined (mkBehaviour inp code s false)
         | .ok _ s => .defined (mkBehaviour inp 0 s true)
 
-end Hex.X
+end Hex.XT
